@@ -30,8 +30,10 @@ LruStems(u, sa) ==
       hostStems ==
         IF sa /\ k > 0
         THEN <<Stem(TAG_H, JoinWith(ReverseSeq(SubSeq(labels, 1, k)), 46))>> \o [i \in 1..(Len(labels) - k) |-> Stem(TAG_H, labels[k + i])]
-        ELSE IF IsSpecialHost(lower) THEN <<Stem(TAG_H, hostText)>>
-        ELSE LET raw == ReverseSeq(SplitOn(np.rawhost, 46)) IN [i \in 1..Len(raw) |-> Stem(TAG_H, raw[i])]
+        ELSE IF IsSpecialHost(lower) /\ ~np.bracketed THEN <<Stem(TAG_H, hostText)>>
+        \* a bracketed literal is tested WITH its brackets by the code, hence never "special": it is cut at its dots like a name
+        \* ('[::ffff:192.168.0.1]' gives four h: stems, '[::1]' one); the round trip joins them back
+        ELSE LET raw == ReverseSeq(SplitOn(hostText, 46)) IN [i \in 1..Len(raw) |-> Stem(TAG_H, raw[i])]
       segs == SplitOn(sp.path, 47)
       pathStems == IF sp.path = <<>> THEN <<>> ELSE [i \in 1..(Len(segs) - 1) |-> Stem(TAG_P, segs[i + 1])]
   IN (IF sp.scheme # <<>> THEN <<Stem(TAG_S, sp.scheme)>> ELSE <<>>)
